@@ -76,23 +76,27 @@ PROPS = {
     ),
     "C08": dict(
         pkg=TY,
-        explanation="no-panic harnesses for the parsers of untrusted bytes: object parser (strict + relaxed retry + depth limit), object header and keyword scanners, string/name/date/UTF-16 text decoders, RunLength / ASCIIHex decoders: the input is an arbitrary byte string (every byte an SMT variable) of length <= N; any path on which the engine detects a Go panic (index, slice bound, nil dereference, type assertion, division by zero), an exceeded unwinding bound (non-termination) or runaway recursion is a violation",
+        explanation="no-panic harnesses for the parsers of untrusted bytes: object parser (strict + relaxed retry + depth limit), object header and keyword scanners, string/name/date/UTF-16 text decoders, RunLength / ASCIIHex decoders: the input is an arbitrary byte string (every byte an SMT variable) of length <= N; any path on which the engine detects a Go panic (index, slice bound, nil dereference, type assertion, division by zero), an exceeded unwinding bound (non-termination) or runaway recursion is a violation; the recursion limit itself is checked by nests of DEPTH+2 arrays/dictionaries in every mix (with symbolic white space) that must be refused with ErrMaxRecursionDepthExceeded under a limit of DEPTH",
         outside="inputs longer than N bytes; whole-document reading, xref repair, cyclic object graphs, fonts, certificates, PKCS#7, JSON/CSV form data; time bounds; the time.Parse fall-backs of relaxed DateTime (stubbed off)",
         harnesses=[
             dict(name="VerifNoPanicTypes", bounds=dict(quick=dict(N=2), thorough=dict(N=3)), opts=dict(unwind=300)),
             dict(name="VerifNoPanicParse", pkg=MO, bounds=dict(quick=dict(N=2), thorough=dict(N=3)), opts=dict(unwind=300)),
+            dict(name="VerifParseDepthLimit", pkg=MO, bounds=dict(quick=dict(DEPTH=3), thorough=dict(DEPTH=5)), opts=dict(unwind=300)),
             dict(name="VerifLimitRunLength", pkg=FI, bounds=dict(quick=dict(N=2), thorough=dict(N=3)), opts=dict(unwind=700)),
             dict(name="VerifLimitASCIIHex", pkg=FI, bounds=dict(quick=dict(N=3), thorough=dict(N=4)), opts=dict(unwind=100)),
         ],
     ),
     "C09": dict(
         pkg=MO,
-        explanation="the guard kernels that stand between attacker-controlled integers and allocation, executed symbolically with the integers at full 64-bit range and the limits symbolic: xref stream /Size and /Index expansion (xRefStreamSize, xRefStreamObjects, FromIndex, FromSize; limits symbolic in 1..LIM so that admitted loops stay short), object stream /N and /First (limits fully symbolic), image width x height against MaxImagePixels / MaxImageBytes (all five values fully symbolic, overflow-free product as oracle); the decode-limit kernels are checked under C16. An allocation whose size the path condition does not bound is reported by the engine",
+        explanation="the guard kernels that stand between attacker-controlled integers and allocation, executed symbolically with the integers at full 64-bit range and the limits symbolic: xref stream /Size and /Index expansion (xRefStreamSize, xRefStreamObjects, FromIndex, FromSize; limits symbolic in 1..LIM so that admitted loops stay short), object stream /N and /First (limits fully symbolic), image width x height against MaxImagePixels / MaxImageBytes (all five values fully symbolic, overflow-free product as oracle); the RunLength/ASCIIHex decode-limit kernels (arbitrary encoded bytes, symbolic limit; the harnesses shared with C16) are run here as well. An allocation whose size the path condition does not bound is reported by the engine",
         outside="peak memory and constant factors, decompression itself, readStreamContent growth, recursion depth of whole-document traversals, limits above LIM for the xref expansion loops",
         harnesses=[
             dict(name="VerifXRefStreamLimits", bounds=dict(quick=dict(LIM=4), thorough=dict(LIM=8)), opts=dict(unwind=300)),
             dict(name="VerifObjectStreamLimits", opts=dict(unwind=100)),
             dict(name="VerifImageLimits", opts=dict(enc="int", solver="z3-new", timeout_ms=60000, unwind=100)),
+            # the decode-limit kernels (shared with C16): a bomb must end in ErrDecodeLimitExceeded at the limit
+            dict(name="VerifLimitRunLength", pkg=FI, bounds=dict(quick=dict(N=3), thorough=dict(N=4)), opts=dict(unwind=700)),
+            dict(name="VerifLimitASCIIHex", pkg=FI, bounds=dict(quick=dict(N=4), thorough=dict(N=6)), opts=dict(unwind=100)),
         ],
     ),
     "C11": dict(
